@@ -1329,6 +1329,60 @@ fn svc(id: &str, var: &str, ty: Ty, ind: &[&str], inp: &[&str], enc: &[&str], ou
 
 pub fn corpus() -> Vec<(&'static str, Graph)> {
   let mut v = vec![];
+  // ---- graphs whose evaluation pushes and pops contexts around a use of the caller's own names (also run by C13):
+  // a decision service used as a function inside a larger expression
+  v.push((
+    "scope-service-as-function",
+    Graph {
+      inputs: vec![inp("_x", "x", Ty::Number), inp("_y", "y", Ty::Number)],
+      decisions: vec![
+        dec("_g", "G", Ty::Untyped, &["_x"], &[], &[], lit("x + 1")),
+        dec("_d1", "D1", Ty::Untyped, &["_y"], &[], &["_s"], lit("S(1) + y")),
+        dec("_d2", "D2", Ty::Untyped, &["_y"], &[], &["_s"], lit("S(1) + S(2) * y")),
+        dec("_d3", "D3", Ty::Untyped, &["_y"], &[], &["_s"], Logic::Ctx(vec![(Some("a".into()), lit("S(3)")), (Some("b".into()), lit("a + y")), (None, lit("b + S(4)"))])),
+      ],
+      bkms: vec![],
+      services: vec![svc("_s", "S", Ty::Untyped, &[], &["_x"], &[], &["_g"])],
+    },
+  ));
+  // a boxed invocation without bindings of a knowledge model whose body is a boxed context with entries named
+  // like the caller's, followed by further entries of the caller
+  v.push((
+    "scope-invocation-without-bindings",
+    Graph {
+      inputs: vec![inp("_y", "y", Ty::Number)],
+      decisions: vec![dec(
+        "_d",
+        "D",
+        Ty::Untyped,
+        &["_y"],
+        &[],
+        &["_k"],
+        Logic::Ctx(vec![
+          (Some("Standard".into()), lit("6")),
+          (Some("Individual".into()), Logic::Inv(Box::new(lit("K")), vec![], false)),
+          (Some("After".into()), lit("Standard + y")),
+          (None, lit("[After, Standard, Individual.Leaked]")),
+        ]),
+      )],
+      bkms: vec![bkm("_k", "K", Ty::Untyped, &[], &[], Logic::Ctx(vec![(Some("Standard".into()), lit("12")), (Some("Leaked".into()), lit("Standard + 1"))]))],
+      services: vec![],
+    },
+  ));
+  // a knowledge model whose body is a boxed context with a result entry, its parameters named like the caller's input
+  v.push((
+    "scope-context-body-with-result",
+    Graph {
+      inputs: vec![inp("_a", "a", Ty::Number)],
+      decisions: vec![
+        dec("_d", "D", Ty::Untyped, &["_a"], &[], &["_f"], lit("F(1, 2) + a")),
+        dec("_e", "E", Ty::Untyped, &["_a"], &[], &["_f"], Logic::Ctx(vec![(Some("x".into()), lit("F(1, 2)")), (Some("y".into()), lit("x + a"))])),
+        dec("_h", "H", Ty::Untyped, &["_a"], &[], &["_f"], Logic::Ctx(vec![(Some("x".into()), Logic::Inv(Box::new(lit("F")), vec![("a".into(), lit("a + 1")), ("b".into(), lit("a"))], false)), (None, lit("x - a"))])),
+      ],
+      bkms: vec![bkm("_f", "F", Ty::Untyped, &[("a", Ty::Number), ("b", Ty::Number)], &[], Logic::Ctx(vec![(Some("s".into()), lit("a + b")), (None, lit("s * 2"))]))],
+      services: vec![],
+    },
+  ));
   // F14: B = A + 1, A = 1
   v.push((
     "f14",
@@ -1866,18 +1920,24 @@ pub fn run(cfg: &Cfg) -> Report {
     "C04",
     "acyclic requirement graphs of 2..8 nodes (decisions, knowledge models, decision services) over 1..3 typed inputs — diamonds, a decision required directly and through a service, knowledge models requiring knowledge models and services, literal / boxed context / boxed invocation / boxed function definition / relation logic, variables named like inputs or other decisions, typed and untyped variables — rendered as DMN XML and loaded by the real parser and builder; every invocable evaluated on generated input contexts (plain, plus entries outside the requirement closure, plus an entry for every variable of a decision / knowledge model / service outside the closure). Non-trivial: the invocable has at least one requirement edge in its closure (closureNames non-empty) or the graph has ≥ 3 nodes; distinct by (graph, invocable, input). Cases whose values the exact-arithmetic model cannot compute are counted as skipped_unsupported.",
   );
-  let mut rng = Rng::new(cfg.seed);
   let thorough = cfg.tier == "thorough";
-  let n_graphs = if thorough { 12_000 } else { 1_500 };
+  run_graphs(cfg, &mut rep, if thorough { 12_000 } else { 1_500 }, true, "");
+  rep
+}
+
+/// The correspondence run over the corpus graphs (those whose name starts with `only`) and `n_graphs` generated
+/// ones, into `rep` — also used by C13 for the graphs that push and pop contexts (scope leaks show as wrong values).
+pub fn run_graphs(cfg: &Cfg, rep: &mut Report, n_graphs: usize, with_cyclic: bool, only: &str) {
+  let mut rng = Rng::new(cfg.seed);
   let ff = 10;
   let mut model = Model::start(&cfg.driver);
-  let mut graphs: Vec<(String, Graph)> = corpus().into_iter().map(|(n, g)| (n.to_string(), g)).collect();
+  let mut graphs: Vec<(String, Graph)> = corpus().into_iter().filter(|(n, _)| n.starts_with(only)).map(|(n, g)| (n.to_string(), g)).collect();
   for k in 0..n_graphs {
     graphs.push((format!("random-{}", k), gen_graph(&mut rng)));
   }
   // graphs with a requirement cycle: the predicate must reject them, and so must
   // `ModelEvaluator::new` (`check_requirements`) and its model `Drg.checkRequirements`
-  for (name, g) in cyclic_corpus() {
+  for (name, g) in cyclic_corpus().into_iter().filter(|_| with_cyclic) {
     if let Some(gs) = graph_sexp(&g) {
       let a = model.ask(&format!("(c04 acyclic {})", gs));
       rep.hit(&format!("cyclic-corpus:{}", a));
@@ -2204,6 +2264,5 @@ pub fn run(cfg: &Cfg) -> Report {
   rep.extra.insert("build_errors".into(), json!(build_errors));
   rep.extra.insert("logic_unparsable".into(), json!(unparsable));
   rep.extra.insert("skipped_unsupported".into(), json!(skipped));
-  rep.model_requests = model.requests;
-  rep
+  rep.model_requests += model.requests;
 }
